@@ -869,6 +869,14 @@ fn check_facts(n: &SyntaxNode, parent: Option<&SyntaxNode>, in_raw: bool, is_roo
         }
     }
     if k == K::Binary {
+        // PF22: an operator token is spelled like its operator
+        for c in &ch {
+            if let Some(op) = ast::BinOp::from_kind(c.kind()) {
+                if c.text().as_str() != op.as_str() && c.children().len() == 0 {
+                    out.push(format!("PF22: operator token {:?} is spelled {:?}, not {:?}", c.kind(), c.text(), op.as_str()));
+                }
+            }
+        }
         // PF21: behind the left operand come comments / blanks, then the operator token(s): `not` only in front of `in`
         let triv = |c: &&SyntaxNode| matches!(c.kind(), K::Space | K::LineComment | K::BlockComment);
         let p = ch.iter().skip(1).position(|c| !triv(&c)).map(|i| i + 1);
